@@ -187,8 +187,10 @@ def model_request(case, order, names_sorted):
 
 
 def table(d, count):
+    """the epoch table as a user sees it: all epochs are generated first and read afterwards
+    (an epoch must not change when later epochs are generated)"""
     out = []
-    for ep in itertools.islice(d.epochs, count):
+    for ep in list(itertools.islice(d.epochs, count)):
         out.append(dict(start=float(ep.start_time), end=float(ep.end_time), sizes=dict(ep.pop_sizes),
                         mig={k: v for k, v in ep.migration_rates.items() if k[0] != k[1]}))
     return out
@@ -316,7 +318,14 @@ def one(ctx, i):
         ctx.violation('pop-names', case=case, observed=d.pop_names)
     names_sorted = list(d.pop_names)      # ids follow the sorted names of the populations that occur
     real = table(d, COUNT)
+    lazy = []
+    for ep in itertools.islice(d.epochs, COUNT):
+        lazy.append(dict(start=float(ep.start_time), end=float(ep.end_time), sizes=dict(ep.pop_sizes),
+                         mig={k: v for k, v in ep.migration_rates.items() if k[0] != k[1]}))
     detail = dict(case=case, order=order, via_add=via_add, known_names=list(d.pop_names))
+    diff0 = tables_equal(lazy, real)
+    if diff0:
+        ctx.violation('epoch-mutated-after-yield', **detail, diff=diff0)
     ctx.case(dict(case=case, n_epochs=len(real)), repr(case) if len(real) >= 3 else None)
     for e in case['events']:
         ctx.count(e['kind'] + (':' + e.get('shape', '') if e['kind'] == 'discrete' else ''))
@@ -336,9 +345,17 @@ def one(ctx, i):
         pts += [ep['start'], (ep['start'] + min(ep['end'], ep['start'] + 1)) / 2]
     rng.shuffle(pts)
     got = d.get_epochs(pts)
+    by_start = {e['start']: e for e in real}
     for t, ep in zip(pts, got):
         if not (ep.start_time <= t < ep.end_time):
             ctx.violation('lookup', **detail, time=t, returned=[float(ep.start_time), float(ep.end_time)], times=pts); break
+        ref = by_start.get(float(ep.start_time))
+        if ref is not None:
+            sizes = dict(ep.pop_sizes); mig = {k: v for k, v in ep.migration_rates.items() if k[0] != k[1]}
+            if any(sizes.get(k) != v for k, v in ref['sizes'].items()) or any(mig.get(k, 0) != v for k, v in ref['mig'].items()):
+                ctx.violation('lookup-values', **detail, time=t, times=pts, returned_sizes=sizes, returned_rates=mig,
+                              expected_sizes=ref['sizes'], expected_rates=ref['mig'])
+                break
     midx = C.driver().ask(' '.join(['getepochs', 'bw', str(COUNT), C.rlist(pts), str(nev)] + toks)).split()
     for t, ep, mi in zip(pts, got, midx):
         if mi != 'none' and real[int(mi)]['start'] != ep.start_time:
